@@ -269,12 +269,15 @@ def split_tensor(ctx, idx, rng):
     distr = ('left', 'right', 'sqrt')[idx % 3]
     tol = float(rng.choice([0, 0, 1e-8, 0.01, 0.1, 0.3]))
     A_snap = A.copy()
-    ctx.case(('split', lay, kind, distr, 'tol0' if tol == 0 else 'tol>0', 'zero' if nA == 0 else 'nonzero'), nontrivial=nA > 0,
-             sample={'A': A_snap, 'qd0': qd0, 'qd1': qd1, 'qD': [qD0, qD2], 'svd_distr': distr, 'tol': tol})
-    with monitor.write_protected(A, qd0, qd1, qD0, qD2):
-        A0, A1, qb = ptn.split_mps_tensor(A, qd0, qd1, [qD0, qD2], distr, tol)
-    detail = {'A': A_snap, 'qd0': qd0, 'qd1': qd1, 'qD0': qD0, 'qD2': qD2, 'distr': distr, 'tol': tol}
-    ctx.ok('split.input-unchanged', oracles.same_bits(A, A_snap), 'split_mps_tensor modified its argument', detail)
+    kx = int(rng.choice([0, 0, 0, -560, 560, -830, 830]))          # the tensor handed over is scaled by 2**kx exactly (entries ~1e+-169, 1e+-250)
+    A_in = oracles.ldexp(A, kx).copy()
+    A_in_snap = A_in.copy()
+    ctx.case(('split', lay, kind, distr, 'tol0' if tol == 0 else 'tol>0', 'zero' if nA == 0 else 'nonzero', 'unit-scale' if kx == 0 else ('tiny' if kx < 0 else 'huge')), nontrivial=nA > 0,
+             sample={'A': A_snap, 'binary_exponent': kx, 'qd0': qd0, 'qd1': qd1, 'qD': [qD0, qD2], 'svd_distr': distr, 'tol': tol})
+    with monitor.write_protected(A_in, qd0, qd1, qD0, qD2):
+        A0, A1, qb = ptn.split_mps_tensor(A_in, qd0, qd1, [qD0, qD2], distr, tol)
+    detail = {'A (before scaling by 2**binary_exponent)': A_snap, 'binary_exponent': kx, 'qd0': qd0, 'qd1': qd1, 'qD0': qD0, 'qD2': qD2, 'distr': distr, 'tol': tol}
+    ctx.ok('split.input-unchanged', oracles.same_bits(A_in, A_in_snap), 'split_mps_tensor modified its argument', detail)
     qb = np.asarray(qb)
     k = len(qb)
     ok = A0.shape == (d0, D0, k) and A1.shape == (d1, k, D2)
@@ -282,7 +285,7 @@ def split_tensor(ctx, idx, rng):
         return
     ctx.ok('split.sector-A0', refs.sector_ok(A0, [qd0, qD0, qb], [1, 1, -1]), 'first half not block sparse', detail)
     ctx.ok('split.sector-A1', refs.sector_ok(A1, [qd1, qb, qD2], [1, 1, -1]), 'second half not block sparse', detail)
-    merged = np.einsum('sab,tbc->stac', A0, A1).reshape(d0 * d1, D0, D2)
+    merged = oracles.ldexp(np.einsum('sab,tbc->stac', A0, A1).reshape(d0 * d1, D0, D2), -kx)
     if nA == 0:
         ctx.ok('split.zero-product', not np.any(merged), 'zero tensor must split into a zero product', detail)
         return
@@ -303,6 +306,7 @@ def split_tensor(ctx, idx, rng):
         # sqrt: both halves carry sqrt(sigma): Gram matrices have the same spectrum = kept singular values
         g0 = np.sort(np.linalg.eigvalsh(A0.reshape(d0 * D0, k).conj().T @ A0.reshape(d0 * D0, k)))[::-1]
         g1 = np.sort(np.linalg.eigvalsh(A1.transpose(1, 0, 2).reshape(k, -1) @ A1.transpose(1, 0, 2).reshape(k, -1).conj().T))[::-1]
+        g0, g1 = np.ldexp(g0, -kx), np.ldexp(g1, -kx)
         ctx.close('split.sqrt-balanced', max(np.abs(g0 - sig[:k]).max(), np.abs(g1 - sig[:k]).max()) / sig[0], 1e-10,
                   'sqrt distribution: halves do not both carry sqrt(sigma)', detail)
 
